@@ -446,6 +446,9 @@ func (e *Environment) SetNoChecks(name string, val Object, create bool) Object {
 			ref.RefEnv.noteReplaced(ref.Name, old)
 		}
 		ref.RefEnv.store[ref.Name] = Value(val) // kinda neat to make aliases but it can create loops, so not for now.
+		if ref.RefEnv.depth == 0 {
+			ref.RefEnv.numSet++ // a global changed (from inside a function): auto save needs to know.
+		}
 		return val
 	}
 	log.Debugf("SetNoChecks(%s) brand new to %d and above", name, e.depth)
